@@ -417,6 +417,12 @@ func consumeStreamsBlockedFrame(b []byte) (typ streamType, max int64, n int) {
 		return 0, 0, -1
 	}
 	n += nn
+	if max > maxStreamsLimit {
+		// "Receipt of a frame that encodes a larger stream ID MUST be treated
+		// as a connection error of type STREAM_LIMIT_ERROR or FRAME_ENCODING_ERROR."
+		// https://www.rfc-editor.org/rfc/rfc9000.html#section-19.14-4.2.1
+		return 0, 0, -1
+	}
 	return typ, max, n
 }
 
